@@ -242,42 +242,51 @@ Definition loop_image {L' : Type} (r : option (option (list str))) : ctl (option
   | Some (Some l) => Return (Some l)
   end.
 
-Lemma loop_sim (prec mrec : str -> option (option (list str))) (s : str) (start : Z)
+(* one iteration, in terms of the model's counts and of the result of the recursive call:
+   what any spelling of the loop body has to come to *)
+Definition iter_image {L' : Type} (mrec : str -> option (option (list str))) (s : str) (index : Z)
+  : ctl (option (list str)) L' unit :=
+  if threshold <=? mw_count lower_c m (slice s 0 index) then
+    if threshold <=? mw_count lower_c m (sfrom s index) then Return (Some [slice s 0 index; sfrom s index])
+    else match mrec (sfrom s index) with
+         | None => Raise
+         | Some (Some (x :: res)) => Return (Some (slice s 0 index :: x :: res))
+         | Some _ => Next tt
+         end
+  else Next tt.
+
+Lemma loop_sim (mrec : str -> option (option (list str))) (s : str) (start : Z)
       (body : Z -> Z -> unit -> ctl (option (list str)) unit unit) :
-  (forall x, prec x = mrec x) ->
-  (forall pos index u, body pos index u =
-     call (py_mw_get_count lower_c t (slice s 0 index)) (fun v1 =>
-     if threshold <=? v1 then
-       call (py_mw_get_count lower_c t (sfrom s index)) (fun v2 =>
-       bind (if threshold <=? v2 then Return (Some [slice s 0 index; sfrom s index]) else Next tt) (fun _ =>
-       call (prec (sfrom s index)) (fun results =>
-       if truthy results then call results (fun results => Return (Some (linsert results 0 (slice s 0 index))))
-       else Next tt)))
-     else Next tt)) ->
+  (forall pos index u, body pos index u = iter_image mrec s index) ->
   forall n k pos,
   for_from (L' := Empty_set) pos (map (fun i => start - Z.of_nat i) (seq k n)) tt body =
   loop_image (mw_loop lower_c threshold mrec m s n (start - Z.of_nat k)).
 Proof.
-  intros Hrec Hb. induction n as [|n IH]; intros k pos; cbn [seq map for_from mw_loop]; [reflexivity|].
-  rewrite Hb. rewrite !(py_mw_get_count_eq lower_c t m) by assumption. cbn [call].
+  intros Hb. induction n as [|n IH]; intros k pos; cbn [seq map for_from mw_loop]; [reflexivity|].
+  rewrite Hb. unfold iter_image.
   assert (Hnext : start - Z.of_nat k - 1 = start - Z.of_nat (S k)) by lia.
   destruct (threshold <=? mw_count lower_c m (slice s 0 (start - Z.of_nat k))); [|rewrite Hnext; apply IH].
-  destruct (threshold <=? mw_count lower_c m (sfrom s (start - Z.of_nat k))); cbn [bind]; [reflexivity|].
-  rewrite Hrec. destruct (mrec (sfrom s (start - Z.of_nat k))) as [[[|x res]|]|]; cbn [call truthy loop_image].
-  - rewrite Hnext. apply IH.
-  - now rewrite linsert_0.
-  - rewrite Hnext. apply IH.
-  - reflexivity.
+  destruct (threshold <=? mw_count lower_c m (sfrom s (start - Z.of_nat k))); [reflexivity|].
+  destruct (mrec (sfrom s (start - Z.of_nat k))) as [[[|x res]|]|]; cbn [loop_image];
+    try reflexivity; rewrite Hnext; apply IH.
 Qed.
 
 Theorem py_mw_identify_multi_eq : forall fuel s, py_identify fuel t s = identify fuel m s.
 Proof.
   induction fuel as [|f IH]; intros s; [reflexivity|].
   cbn [py_mw_identify_multi mw_identify]. cbv zeta. unfold for_each, range_down.
-  erewrite loop_sim with (mrec := identify f m) (k := O); [| exact IH | intros; reflexivity].
-  replace (len s - min_len - Z.of_nat 0) with (len s - min_len) by lia.
-  destruct (mw_loop lower_c threshold (identify f m) m s (Z.to_nat (len s - min_len - (min_len - 1))) (len s - min_len))
-    as [[l|]|]; reflexivity.
+  erewrite loop_sim with (mrec := identify f m) (k := O) (s := s).
+  - replace (len s - min_len - Z.of_nat 0) with (len s - min_len) by lia.
+    destruct (mw_loop lower_c threshold (identify f m) m s (Z.to_nat (len s - min_len - (min_len - 1))) (len s - min_len))
+      as [[l|]|]; reflexivity.
+  - (* the body of the source, however it names its slices and builds the list it returns *)
+    intros pos index u. cbv beta zeta. unfold iter_image.
+    rewrite !(py_mw_get_count_eq lower_c t m) by assumption. cbn [call].
+    destruct (threshold <=? mw_count lower_c m (slice s 0 index)); [|reflexivity].
+    rewrite ?(py_mw_get_count_eq lower_c t m) by assumption. cbn [call].
+    destruct (threshold <=? mw_count lower_c m (sfrom s index)); cbn [bind]; [reflexivity|].
+    rewrite IH. destruct (identify f m (sfrom s index)) as [[[|x res]|]|]; cbn [call truthy app];
+      rewrite ?linsert_0; reflexivity.
 Qed.
 
 Theorem py_mw_parse_eq s :
@@ -333,23 +342,28 @@ Qed.
 
 (* closing a run: the case analysis shared by the two places where the source does it.
    Goal: exists t', <block> = Next (idx, t') /\ mw_rep t' (bump m st rrun) *)
-Ltac close_run Hr Hat :=
-  unfold mw_bump;
-  match goal with |- context [min_len <=? ?l] => destruct (min_len <=? l) end;
-  [ unfold t_has_count, t_get_count; rewrite Hr;
-    match goal with |- context [mw_lookup ?m ?k] => destruct (mw_lookup m k) end;
-    cbn [negb call];
-    try match goal with |- context [if ?b then _ else _] => is_var b; destruct b end;
-    (eexists; split; [reflexivity|apply rep_set_count; assumption])
-  | eexists; split; [reflexivity|assumption] ].
+(* closing a run (`if run_len >= min_len: if "count" not in index: ... else: index["count"] += 1`,
+   inlined or through a helper, with the tests in either polarity): case analysis on the tests of
+   the whole goal, the "count" entries read through the representation [Hr]; [leaf] finishes *)
+Ltac close_cases Hr leaf :=
+  unfold mw_bump, t_has_count, t_get_count, c_root;
+  rewrite ?Z.ltb_antisym;
+  rewrite ?Hr;
+  repeat (cbn [negb bind call run];
+          match goal with
+          | |- context [match mw_lookup ?m ?k with _ => _ end] => destruct (mw_lookup m k) eqn:?
+          | |- context [if ?c then _ else _] =>
+              bool_atom c ltac:(fun a => first [is_var a; destruct a | destruct a eqn:?])
+          end);
+  cbn [negb bind call run]; leaf.
 
 Theorem py_mw_train_eq t m st pw : mw_rep t m ->
   exists t', py_mw_train isalpha lower_c threshold min_len max_len t pw st = Some t' /\
              mw_rep t' (mw_train isalpha lower_c threshold min_len max_len m st pw).
 Proof.
   intros Hr. unfold py_mw_train, mw_train.
-  destruct (len pw <? min_len); cbn [bind run]; [eauto|].
-  destruct (max_len <? len pw); cbn [bind run]; [eauto|].
+  (* the two bail-outs, as two ifs or one `or` *)
+  destruct (len pw <? min_len) eqn:E1; destruct (max_len <? len pw) eqn:E2; cbn [orb bind run]; try solve [eauto].
   cbv zeta. unfold for_each, cursor, str. rewrite train_loop_scan.
   match goal with |- context [for_from 0 _ _ ?b] => set (body := b) end.
   assert (L : forall w pos rrun m t, mw_rep t m -> t_at t (rev rrun) <> None ->
@@ -358,7 +372,12 @@ Proof.
                mw_rep t' (fst (mw_scan m st w rrun)) /\ t_at t' (rev (snd (mw_scan m st w rrun))) <> None).
   { clear. induction w as [|c w IH]; intros pos rrun m t Hr Hat; cbn [for_from mw_scan].
     - exists t. auto.
-    - unfold body at 1. cbv beta zeta. destruct (isalpha c).
+    - assert (IH0 : forall pos m t, mw_rep t m ->
+                exists t', for_from (R := trie) (L' := Empty_set) pos w (0, [], t) body =
+                  Next (len (snd (mw_scan m st w [])), rev (snd (mw_scan m st w [])), t') /\
+                  mw_rep t' (fst (mw_scan m st w [])) /\ t_at t' (rev (snd (mw_scan m st w []))) <> None)
+        by (intros pos0 m0 t0 H0; apply (IH pos0 [] m0 t0 H0); discriminate).
+      unfold body at 1. cbv beta zeta. destruct (isalpha c).
       + assert (Hgo : forall t1, mw_rep t1 m -> t_has t1 (rev rrun) c = true ->
                   exists t', for_from (R := trie) (L' := Empty_set) (pos + 1) w (len rrun + 1, rev rrun ++ [c], t1) body =
                     Next (len (snd (mw_scan m st w (c :: rrun))), rev (snd (mw_scan m st w (c :: rrun))), t') /\
@@ -370,22 +389,13 @@ Proof.
         * rewrite Eh. cbn [call]. now apply Hgo.
         * rewrite has_new by assumption. cbn [call]. apply Hgo; [now apply rep_new|now apply has_new].
       + rewrite len_eq0. destruct (nonempty rrun) eqn:En; cbn [negb].
-        * match goal with |- context [bind ?blk _] =>
-            assert (Hb : exists t1, blk = Next (rev rrun, t1) /\ mw_rep t1 (bump m st rrun)) by close_run Hr Hat
-          end.
-          destruct Hb as (t1 & -> & Hr1). cbn [bind]. unfold c_root.
-          change (@nil N) with (rev (@nil N)) at 1. change 0 with (len []) at 1.
-          apply IH; [assumption|discriminate].
+        * clear IH. close_cases Hr ltac:(apply IH0; first [assumption | apply rep_set_count; assumption]).
         * apply nonempty_false in En. subst rrun. apply IH; assumption. }
-  destruct (L (lower lower_c pw) 0 [] m t Hr ltac:(discriminate)) as (t1 & E1 & Hr1 & Hat1).
-  change (len []) with 0 in E1. cbn [rev] in E1. unfold c_root. rewrite E1. clear E1. cbn [bind].
+  destruct (L (lower lower_c pw) 0 [] m t Hr ltac:(discriminate)) as (t1 & E1' & Hr1 & Hat1).
+  change (len []) with 0 in E1'. cbn [rev] in E1'. unfold c_root. rewrite E1'. clear E1'. cbn [bind].
   destruct (mw_scan m st (lower lower_c pw) []) as [m1 rr]. cbn [fst snd] in *.
-  rewrite len_eq0. destruct (nonempty rr) eqn:En; cbn [negb].
-  - match goal with |- context [bind ?blk _] =>
-      assert (Hb : exists t2, blk = Next (rev rr, t2) /\ mw_rep t2 (bump m1 st rr)) by close_run Hr1 Hat1
-    end.
-    destruct Hb as (t2 & -> & Hr2). cbn [bind run]. eauto.
-  - cbn [bind run]. eauto.
+  rewrite len_eq0. destruct (nonempty rr) eqn:En; cbn [negb]; [|cbn [bind run]; eauto].
+  clear L. close_cases Hr1 ltac:(eexists; split; [reflexivity|first [assumption | apply rep_set_count; assumption]]).
 Qed.
 
 End Train.
